@@ -139,7 +139,31 @@ pub fn plan_for(seed: u64, run: u64) -> ProcPlan {
         _ => rng.range(0, 12),
     };
     let lines: Vec<String> = match tool {
-        Tool::Predict => (0..n_lines).map(|_| gen_line(&mut rng, meta)).collect(),
+        Tool::Predict => {
+            // a fifth of the lines are related to the line before: the same line again, its
+            // image under the normaliser, a width variant, or one character changed -- carried
+            // state in the tool's line loop shows on such neighbours, not on independent lines
+            let mut v: Vec<String> = vec![];
+            for _ in 0..n_lines {
+                let prev = v.last().cloned().filter(|p: &String| !p.is_empty() && p.chars().count() < 400);
+                let l = match prev {
+                    Some(p) if rng.chance(1, 5) => match rng.below(4) {
+                        0 => p,
+                        1 => KyteaFullwidthFilter.filter(&p),
+                        2 => p.chars().map(|c| match c { 'ａ' => 'a', 'ｂ' => 'b', '１' => '1', '２' => '2', 'Ａ' => 'A', '。' if rng.chance(1, 2) => '.', c => c }).collect(),
+                        _ => {
+                            let mut cs: Vec<char> = p.chars().collect();
+                            let i = rng.below(cs.len());
+                            cs[i] = if meta { *rng.pick(FIXED_POINT) } else { gen::gen_char(&mut rng) };
+                            cs.into_iter().filter(|&c| c != '\n').collect()
+                        }
+                    },
+                    _ => gen_line(&mut rng, meta),
+                };
+                v.push(l);
+            }
+            v
+        }
         Tool::Evaluate => (0..n_lines)
             .map(|_| {
                 if rng.chance(1, 8) {
